@@ -1,0 +1,287 @@
+//! Verification hook for property C03 (read-only).
+//!
+//! * dumps of the compiled production automata through the public [`DFA`] API
+//!   (breadth first from `start()`, states renumbered in discovery order, start = 0);
+//! * [`VerifTokenizer`]: the private incremental tokenizer (`MatcherDecoder`) instantiated
+//!   either over caller supplied NFAs or over the production automata, returning raw items
+//!   (matched bytes + whether it was a match) without payload decoding, together with
+//!   read access to its private `buffer` / `rescheduled` vectors.
+use super::{
+    Decoder, Either, Matcher, MatcherAutomata, MatcherDecoder, TTY_COMMAND_AUTOMATA,
+    TTY_EVENT_AUTOMATA, UTF8DFA, Void,
+};
+use crate::{
+    TerminalCommand,
+    automata::{DFA, DFAState, NFA},
+    terminal::TerminalEvent,
+};
+use std::{
+    collections::{BTreeMap, VecDeque},
+    fmt,
+};
+
+/// One state of a dumped DFA
+#[derive(Debug, Clone)]
+pub struct DfaStateDump {
+    pub accepting: bool,
+    pub terminal: bool,
+    /// least tag rendered with `{:?}` (the one the decoder picks)
+    pub tag: Option<String>,
+    /// all tags rendered with `{:?}`
+    pub tags: Vec<String>,
+    /// outgoing edges `(symbol, target)` in symbol order
+    pub edges: Vec<(u8, usize)>,
+}
+
+/// BFS dump through the public DFA API
+pub fn dump_dfa<T: fmt::Debug>(dfa: &DFA<T>) -> Vec<DfaStateDump> {
+    let mut ids: BTreeMap<DFAState, usize> = BTreeMap::new();
+    let mut queue = VecDeque::new();
+    let mut out: Vec<DfaStateDump> = Vec::new();
+    ids.insert(dfa.start(), 0);
+    queue.push_back(dfa.start());
+    while let Some(state) = queue.pop_front() {
+        let info = dfa.info(state);
+        let mut edges = Vec::new();
+        for symbol in 0..=u8::MAX {
+            if let Some(next) = dfa.transition(state, symbol) {
+                let next_id = match ids.get(&next) {
+                    Some(id) => *id,
+                    None => {
+                        let id = ids.len();
+                        ids.insert(next, id);
+                        queue.push_back(next);
+                        id
+                    }
+                };
+                edges.push((symbol, next_id));
+            }
+        }
+        out.push(DfaStateDump {
+            accepting: info.is_accepting,
+            terminal: info.is_terminal,
+            tag: info.tags.iter().next().map(|tag| format!("{:?}", tag)),
+            tags: info.tags.iter().map(|tag| format!("{:?}", tag)).collect(),
+            edges,
+        });
+    }
+    out
+}
+
+/// Automaton of `TTYEventDecoder`
+pub fn event_dfa() -> Vec<DfaStateDump> {
+    dump_dfa(&TTY_EVENT_AUTOMATA.automata)
+}
+
+/// Automaton of `TTYCommandDecoder`
+pub fn command_dfa() -> Vec<DfaStateDump> {
+    dump_dfa(&TTY_COMMAND_AUTOMATA.automata)
+}
+
+/// Automaton of `Utf8Decoder`
+pub fn utf8_dfa() -> Vec<DfaStateDump> {
+    dump_dfa(&UTF8DFA)
+}
+
+/// Matcher that reports the bytes it was asked to decode together with its own index
+#[derive(Debug)]
+struct BytesMatcher<P> {
+    index: usize,
+    nfa: NFA<P>,
+}
+
+impl<P: fmt::Debug + Clone + Send + Sync> Matcher for BytesMatcher<P> {
+    type Item = (usize, Vec<u8>);
+
+    fn matcher(&self) -> Either<NFA<Void>, NFA<Self::Item>> {
+        // the caller's NFA must be untagged; `MatcherAutomata::new` tags the stop state
+        Either::Left(
+            self.nfa
+                .clone()
+                .tags_map(|_| -> Void { panic!("[VerifTokenizer] patterns must be untagged") }),
+        )
+    }
+
+    fn decode(&self, data: &[u8]) -> Option<Self::Item> {
+        Some((self.index, data.to_vec()))
+    }
+}
+
+/// Raw item produced by the tokenizer
+#[derive(Debug, Clone, PartialEq, Eq)]
+pub struct VerifItem {
+    /// `true`: a recognised sequence, `false`: raw (unrecognised) bytes
+    pub is_match: bool,
+    /// index of the matcher that decoded the item (only for caller supplied patterns)
+    pub index: Option<usize>,
+    /// bytes as reported by the tokenizer itself: for a match over caller supplied patterns
+    /// the slice handed to the matcher, for raw items the rejected buffer;
+    /// `None` for matches of the production automata (the item is an already decoded value)
+    pub bytes: Option<Vec<u8>>,
+    /// number of stream bytes accounted for by all items so far, this one included
+    /// (bytes fed so far minus `buffer.len()` minus `rescheduled.len()`)
+    pub end: usize,
+}
+
+trait ItemInfo {
+    fn info(&self) -> (Option<usize>, Option<Vec<u8>>);
+}
+
+impl ItemInfo for (usize, Vec<u8>) {
+    fn info(&self) -> (Option<usize>, Option<Vec<u8>>) {
+        (Some(self.0), Some(self.1.clone()))
+    }
+}
+
+impl ItemInfo for TerminalEvent {
+    fn info(&self) -> (Option<usize>, Option<Vec<u8>>) {
+        (None, None)
+    }
+}
+
+impl ItemInfo for TerminalCommand {
+    fn info(&self) -> (Option<usize>, Option<Vec<u8>>) {
+        (None, None)
+    }
+}
+
+/// The private incremental tokenizer
+pub struct VerifTokenizer<T> {
+    inner: MatcherDecoder<T>,
+    fed: usize,
+}
+
+impl VerifTokenizer<(usize, Vec<u8>)> {
+    /// Tokenizer over caller supplied patterns (pattern `i` is decoded by matcher `i`)
+    pub fn new<P>(patterns: impl IntoIterator<Item = NFA<P>>) -> Self
+    where
+        P: fmt::Debug + Clone + Send + Sync + 'static,
+    {
+        let automata = MatcherAutomata::new(patterns.into_iter().enumerate().map(|(index, nfa)| {
+            Box::new(BytesMatcher { index, nfa }) as Box<dyn Matcher<Item = (usize, Vec<u8>)>>
+        }));
+        Self {
+            inner: MatcherDecoder::new(automata),
+            fed: 0,
+        }
+    }
+}
+
+impl VerifTokenizer<TerminalEvent> {
+    /// Tokenizer of `TTYEventDecoder`
+    pub fn event() -> Self {
+        Self {
+            inner: MatcherDecoder::new(TTY_EVENT_AUTOMATA.clone()),
+            fed: 0,
+        }
+    }
+}
+
+impl VerifTokenizer<TerminalCommand> {
+    /// Tokenizer of `TTYCommandDecoder`
+    pub fn command() -> Self {
+        Self {
+            inner: MatcherDecoder::new(TTY_COMMAND_AUTOMATA.clone()),
+            fed: 0,
+        }
+    }
+}
+
+#[allow(private_bounds)]
+impl<T: Clone + Ord + fmt::Debug + ItemInfo> VerifTokenizer<T> {
+    /// Dump of the automaton this tokenizer runs
+    pub fn dfa(&self) -> Vec<DfaStateDump> {
+        dump_dfa(&self.inner.automata.automata)
+    }
+
+    fn item(&self, item: Result<T, super::MatcherBuffer>, unread: usize) -> VerifItem {
+        let end = self.fed - unread - self.inner.buffer.len() - self.inner.rescheduled.len();
+        match item {
+            Ok(value) => {
+                let (index, bytes) = value.info();
+                VerifItem {
+                    is_match: true,
+                    index,
+                    bytes,
+                    end,
+                }
+            }
+            Err(raw) => VerifItem {
+                is_match: false,
+                index: None,
+                bytes: Some(raw.into_vec()),
+                end,
+            },
+        }
+    }
+
+    /// One read through `Decoder::decode_into`; returns the items and the number of bytes
+    /// of `chunk` left unconsumed in the reader (always 0 for the code as written)
+    pub fn feed(&mut self, chunk: &[u8]) -> (Vec<VerifItem>, usize) {
+        let mut cursor = std::io::Cursor::new(chunk);
+        let mut items = Vec::new();
+        self.inner
+            .decode_into(&mut cursor, &mut items)
+            .expect("cursor does not fail");
+        let unread = chunk.len() - cursor.position() as usize;
+        self.fed += chunk.len() - unread;
+        // `end` can only be attributed per item when items are taken one at a time
+        let n = items.len();
+        let out = items
+            .into_iter()
+            .enumerate()
+            .map(|(i, item)| {
+                let mut item = self.item(item, 0);
+                if i + 1 != n {
+                    item.end = usize::MAX;
+                }
+                item
+            })
+            .collect();
+        (out, unread)
+    }
+
+    /// One read through repeated `Decoder::decode` (as `UnixTerminal::poll` does); every item
+    /// carries the exact stream offset up to which the items account for the input
+    pub fn feed_by_decode(&mut self, chunk: &[u8]) -> (Vec<VerifItem>, usize) {
+        let mut cursor = std::io::Cursor::new(chunk);
+        let mut out = Vec::new();
+        self.fed += chunk.len();
+        loop {
+            let item = self
+                .inner
+                .decode(&mut cursor)
+                .expect("cursor does not fail");
+            let unread = chunk.len() - cursor.position() as usize;
+            match item {
+                Some(item) => out.push(self.item(item, unread)),
+                None => {
+                    self.fed -= unread;
+                    return (out, unread);
+                }
+            }
+        }
+    }
+
+    /// A single call of `Decoder::decode`: item (if any) and number of bytes consumed
+    pub fn decode_once(&mut self, input: &[u8]) -> (Option<VerifItem>, usize) {
+        let mut cursor = std::io::Cursor::new(input);
+        let item = self
+            .inner
+            .decode(&mut cursor)
+            .expect("cursor does not fail");
+        let consumed = cursor.position() as usize;
+        self.fed += consumed;
+        (item.map(|item| self.item(item, 0)), consumed)
+    }
+
+    /// Private `buffer`: bytes consumed since the last item
+    pub fn buffer(&self) -> Vec<u8> {
+        self.inner.buffer.to_vec()
+    }
+
+    /// Private `rescheduled` vector as stored (next byte to be parsed is the last one)
+    pub fn rescheduled(&self) -> Vec<u8> {
+        self.inner.rescheduled.to_vec()
+    }
+}
